@@ -1,4 +1,6 @@
 import ZmqVerif.Lemmas.WorldMaps
+import ZmqVerif.Lemmas.SinkStream
+import ZmqVerif.Lemmas.WorldPubFan
 /-!
 # C12 — a slow subscriber never blocks the publisher or corrupts its own stream
 
@@ -13,51 +15,17 @@ open Zmq Zmq.W
 
 /-- stream continuity of one write burst: bytes leave the buffer for the wire in order -/
 theorem flushBuf_stream (p : WPipe) (buf : Bytes) :
-    (flushBuf p buf).1.wire ++ (flushBuf p buf).2.1 = p.wire ++ buf := by
-  unfold flushBuf
-  by_cases h1 : buf.isEmpty
-  · simp [h1]
-  · by_cases h2 : p.wrerr
-    · simp [h1, h2]
-    · cases hc : p.credit with
-      | none => simp [h1, h2, hc]
-      | some c =>
-        simp only [h1, h2, hc, Bool.false_eq_true, ↓reduceIte]
-        by_cases h3 : min c buf.length = buf.length
-        · simp only [h3, ↓reduceIte, List.append_nil]
-          rw [List.take_of_length_le (by omega)]
-        · simp only [h3, ↓reduceIte, List.append_assoc, List.take_append_drop]
+    (flushBuf p buf).1.wire ++ (flushBuf p buf).2.1 = p.wire ++ buf := Sink.flushBuf_stream p buf
 
 theorem pollReady_stream (hwm : Nat) (p : WPipe) (buf : Bytes) :
-    (pollReady hwm p buf).1.wire ++ (pollReady hwm p buf).2.1 = p.wire ++ buf := by
-  unfold pollReady
-  by_cases h1 : buf.length < hwm
-  · simp [h1]
-  · by_cases h2 : p.wrerr
-    · simp [h1, h2]
-    · cases hc : p.credit with
-      | none => simp [h1, h2, hc]
-      | some c =>
-        simp only [h1, h2, hc, Bool.false_eq_true, ↓reduceIte]
-        split <;> simp only [List.append_assoc, List.take_append_drop]
+    (pollReady hwm p buf).1.wire ++ (pollReady hwm p buf).2.1 = p.wire ++ buf := Sink.pollReady_stream hwm p buf
 
 /-- **Stream**: whatever the pipe does, after `try_send` the bytes on the wire followed by the
 bytes still buffered are the previous ones followed by the WHOLE encoding of the message if
 it was accepted, and by nothing if it was dropped — never half a message, never reordered. -/
 theorem C12_stream (hwm : Nat) (p : WPipe) (buf enc : Bytes) :
     (trySend hwm p buf enc).1.wire ++ (trySend hwm p buf enc).2.1
-      = p.wire ++ buf ++ (if (trySend hwm p buf enc).2.2 = .ok then enc else []) := by
-  have h1 := pollReady_stream hwm p buf
-  unfold trySend
-  match hq : pollReady hwm p buf with
-  | (p1, b1, .pending) => rw [hq] at h1; simpa using h1
-  | (p1, b1, .error) => rw [hq] at h1; simpa using h1
-  | (p1, b1, .done) =>
-    rw [hq] at h1
-    have h2 := flushBuf_stream p1 (b1 ++ enc)
-    simp only at h1
-    simp only [↓reduceIte]
-    rw [h2, ← List.append_assoc, h1]
+      = p.wire ++ buf ++ (if (trySend hwm p buf enc).2.2 = .ok then enc else []) := Sink.trySend_stream hwm p buf enc
 
 theorem flushBuf_len (p : WPipe) (buf : Bytes) : (flushBuf p buf).2.1.length ≤ buf.length := by
   unfold flushBuf
@@ -169,5 +137,40 @@ theorem C12_publish_never_waits (w : World) (sid : Nat) (m : Msg) :
   split
   · simp
   · simp
+
+/-! ### socket level: one publish, subscriber by subscriber -/
+
+/-- **One publish as the subscriber's connection sees it.**  `pubSend` is the loop `pubStep` over the subscriber table
+followed by forgetting the subscribers whose pipe is broken (`pubSend_fold`, by `rfl`); that last phase changes no
+connection's write side (`pubSend_wOf`).  For a subscriber `(k, wr)` at ANY position of the table whose connection is
+shared with no other subscriber: after the loop it is still in the table, on the same connection, and its outgoing
+stream (wire ++ write buffer) is the old one followed by the WHOLE encoding — iff one of its subscriptions is a prefix
+of the topic (C11) AND `try_send` accepted the message (not at the high-water mark, no write error) — or by nothing at
+all: never a part, never twice, whatever the OTHER subscribers do (stalled, full, broken).  Hence, by induction over
+the publishes, what reaches a subscriber is a concatenation of complete encodings of an order-preserving subsequence of
+the matching messages. -/
+theorem C12_world_publish_subscriber (s : Socket) (topic enc : Bytes) (pre post : List (Ident × Wr)) (k : Ident) (wr : Wr)
+    (acc : Pipes × List (Ident × Wr) × List Ident)
+    (hpre : ∀ e ∈ pre, e.2.pipe ≠ wr.pipe) (hpost : ∀ e ∈ post, e.2.pipe ≠ wr.pipe) :
+    let r := (pre ++ (k, wr) :: post).foldl (pubStep s topic enc) acc
+    ∃ wr', (k, wr') ∈ r.2.1 ∧ wr'.pipe = wr.pipe ∧
+      outOf r.1 wr' = outOf acc.1 wr ++
+        (if hit ((ilookup s.subsOf k).getD []) topic ∧ (wrTrySend acc.1 wr enc).2.2 = .ok then enc else []) :=
+  pubFold_sub s topic enc pre post k wr acc hpre hpost
+
+/-- `PubSocket::send` / `XPubSocket::send` IS that loop (definitional) … -/
+theorem C12_world_publish_is_the_loop (w : World) (sid : Nat) (m : Msg) (s : Socket) (hs : getSock w sid = some s) :
+    pubSend w sid m =
+      (let r := s.peers.foldl (pubStep s (m.headD []) (encodeMsg m)) (w.pipes, [], [])
+       let s1 := { s with peers := r.2.1 }
+       let q := r.2.2.foldl (fun (acc : Pipes × Socket) k => peerDisconnected acc.1 acc.2 k) (r.1, s1)
+       (setSock { w with pipes := q.1 } sid q.2, .ready .okUnit)) :=
+  pubSend_fold w sid m s hs
+
+/-- … whose clean-up phase touches no write side -/
+theorem C12_world_publish_cleanup (w : World) (sid : Nat) (m : Msg) (s : Socket) (hs : getSock w sid = some s) (j : Nat) :
+    wOf (pubSend w sid m).1.pipes j =
+      wOf (s.peers.foldl (pubStep s (m.headD []) (encodeMsg m)) (w.pipes, [], [])).1 j :=
+  pubSend_wOf w sid m s hs j
 
 end Zmq.C12
